@@ -4,3 +4,5 @@ import vlib.chfmt
 import vlib.chre
 vlib.chfmt.install()
 vlib.chre.install()
+import vlib.chopt
+vlib.chopt.install()
